@@ -396,7 +396,7 @@ def check_run(case) -> Case:
 
 BAD_YAML = "magic-numbers: [1, 2\n  x: {\n"
 BAD_JSON = "{not json"
-USAGE = ["missing-path", "missing-path-among-valid", "config-missing", "config-malformed-yaml", "config-malformed-json",
+USAGE = ["missing-path", "missing-path-among-valid", "missing-path-first", "missing-path-middle", "missing-path-two", "config-missing", "config-malformed-yaml", "config-malformed-json",
          "config-yaml-not-a-mapping", "config-json-not-a-mapping", "auto-config-not-a-mapping",
          "auto-config-malformed", "global-config-malformed", "format-invalid", "format-no-value", "unknown-option",
          "threshold-nonint", "threshold-nonpositive", "rules-invalid-json", "perf-rule-invalid", "project-root-missing", "project-root-is-file"]
@@ -419,6 +419,12 @@ def usage_args(cmd, cls, k):
         a += ["no_such_dir/none.py"]
     elif cls == "missing-path-among-valid":
         a += [".", "no_such_file.py"]
+    elif cls == "missing-path-first":  # the position of the missing path among the targets must not matter
+        a += ["no_such_file.py", "."]
+    elif cls == "missing-path-middle":
+        a += [".", "no_such_file.py", "."]
+    elif cls == "missing-path-two":
+        a += ["no_such_file.py", "no_such_dir", "."]
     elif cls == "config-missing":
         a += ["--config", "absent.yaml", "."]
     elif cls == "config-malformed-yaml":
